@@ -131,6 +131,8 @@ func (env *SpecEnv) lookupName(name string) (Val, bool, error) {
 
 // loadLV reads a location in the environment's heap (which may be the old heap).
 func (env *SpecEnv) loadLV(lv *LValue) (*Term, error) {
+	env.x.inSpec = true
+	defer func() { env.x.inSpec = false }()
 	if env.heap == nil {
 		return env.x.load(env.s, lv)
 	}
